@@ -23,13 +23,16 @@ YamlSers == {"yaml_block", "yaml_flow", "yaml_start"}
 Sers == JsonSers \cup YamlSers
 Suffixes == {".json", ".JSON", ".yaml", ".yml", ".txt", ""}
 CTypes == {"application/json", "application/json; charset=utf-8", "application/yaml", "application/x-yaml", "text/yaml", "text/plain", "text/plain; charset=utf-8",
-           "application/octet-stream", "application/vnd.oai.openapi+json", "application/vnd.oai.openapi"}
+           "application/octet-stream", "application/vnd.oai.openapi+json", "application/vnd.oai.openapi",
+           \* a charset parameter that does not match the (UTF-8) bytes: the loader works on the bytes, as it does for a file
+           "text/yaml; charset=ISO-8859-1", "application/json; charset=ISO-8859-1"}
 Carriers == [src : {"path"}, ser : Sers, label : Suffixes] \cup [src : {"url"}, ser : Sers, label : CTypes]
 
 \* mimetypes.guess_type(strict=True) on the file URI
 Guess(suffix) == CASE suffix \in {".json", ".JSON"} -> "application/json" [] suffix = ".txt" -> "text/plain" [] OTHER -> "none"
 \* header.split(";")[0]
-BeforeSemicolon(ct) == CASE ct = "application/json; charset=utf-8" -> "application/json" [] ct = "text/plain; charset=utf-8" -> "text/plain" [] OTHER -> ct
+BeforeSemicolon(ct) == CASE ct \in {"application/json; charset=utf-8", "application/json; charset=ISO-8859-1"} -> "application/json" [] ct = "text/plain; charset=utf-8" -> "text/plain"
+                         [] ct = "text/yaml; charset=ISO-8859-1" -> "text/yaml" [] OTHER -> ct
 
 VARIABLES c, pc, class, decoder, result
 vars == <<c, pc, class, decoder, result>>
@@ -42,7 +45,7 @@ Next == Fetch \/ Classify \/ Decode
 Spec == Init /\ [][Next]_vars /\ WF_vars(Next)
 
 \* a label contradicts the bytes only when it says JSON and the bytes are YAML
-Consistent(k) == ~(k.ser \in YamlSers /\ ((k.src = "path" /\ k.label \in {".json", ".JSON"}) \/ (k.src = "url" /\ k.label \in {"application/json", "application/json; charset=utf-8"})))
+Consistent(k) == ~(k.ser \in YamlSers /\ ((k.src = "path" /\ k.label \in {".json", ".JSON"}) \/ (k.src = "url" /\ k.label \in {"application/json", "application/json; charset=utf-8", "application/json; charset=ISO-8859-1"})))
 L1 == (pc = "done" /\ Consistent(c)) => result = "doc"
 L1b == (pc = "done" /\ ~Consistent(c)) => result = "error"        \* and then nothing is generated (diagnostic), never a wrong document
 Terminates == <>(pc = "done")
